@@ -117,17 +117,25 @@ Section Seg.
     else if negb (nodup_nat ps) then Err "ErrorInitIndex"      (* a Frame cannot hold a label twice *)
     else Ok (take_nat am ps).
 
-  (* the guard under which the unchanged code is right: members are visited one after the other
-     (each at most once) and the positions inside every member ascend *)
-  Fixpoint block_asc_from (own : list B) (lastp : nat) (lastb : B) (ps : list nat) : bool :=
+  (* the exact guard under which the unchanged code is right: the key visits the members one after the
+     other (each at most once) and the positions inside every member ascend.
+     runs: adjacent positions grouped by owner *)
+  Fixpoint runs (own : list B) (ps : list nat) : list (B * list nat) :=
     match ps with
-    | [] => true
+    | [] => []
     | p :: r =>
         match nth_error own p with
-        | None => false
-        | Some b => (if beqb b lastb then (lastp <? p)%nat else true) && block_asc_from own p b r
+        | None => runs own r
+        | Some b => match runs own r with
+                    | (b', run) :: rest => if beqb b b' then (b, p :: run) :: rest else (b, [p]) :: (b', run) :: rest
+                    | [] => [(b, [p])]
+                    end
         end
     end.
+
+  Definition block_asc (q : sbus) (ps : list nat) : bool :=
+    in_range (length (axis_map q)) ps && nodup_nat ps &&
+    nodupb (map fst (runs (owners q) ps)) && forallb asc_nat (map snd (runs (owners q) ps)).
 End Seg.
 
 Arguments axis_map {B X} q.
@@ -141,6 +149,8 @@ Arguments M_parts {B X} beqb q ps.
 Arguments M_touched {B X} beqb q ps.
 Arguments flatten_parts {B X} parts.
 Arguments S_take {B X} q ps.
+Arguments runs {B} beqb own ps.
+Arguments block_asc {B X} beqb q ps.
 
 (* ------------------------------------------------------------------ keys (NumPy / Python indexing) *)
 Inductive key :=
@@ -307,6 +317,14 @@ Section QuiltFrames.
     let labs := flat_map (fun bf => map (fun l => if q_retain q then VTup [fst bf; l] else l) (mf_labels (snd bf))) (q_bus q) in
     if nodupb val_eqb labs then Ok labs else Err "ErrorInitIndex".
 
+  (* the widest guard: order-preserving inside every member, members visited one after the other *)
+  Definition dom_extract_block (q : quilt) (sel : key) : bool :=
+    axis_map_ok q &&
+    match key_positions sel (length (axis_map (seg_of q))) with
+    | Err _ => true
+    | Ok ps => block_asc val_eqb (seg_of q) ps && negb (match ps with [] => true | _ => false end)
+    end.
+
   (* the guard of the refinement theorem, computed from the key alone *)
   Definition dom_extract (q : quilt) (sel : key) : bool :=
     axis_map_ok q &&
@@ -337,6 +355,7 @@ Arguments strip_name {A} r.
 Arguments M_labels {A} q.
 Arguments S_labels {A} q.
 Arguments dom_extract {A} q sel.
+Arguments dom_extract_block {A} q sel.
 
 (* ------------------------------------------------------------------ selection by label *)
 (* label keys as the harness builds them; the label -> position translation itself is the business of
